@@ -4,6 +4,7 @@ import Rare.Proofs.C12Scan
 import Rare.Proofs.C12Ext
 import Rare.Proofs.C12Amd64
 import Rare.Proofs.C12Utf8
+import Rare.Proofs.C12LazyM
 import Rare.Gen.C12
 /-!
 Property C12 – dissect matching equals its specification; ignore-case only adds matches.
@@ -823,6 +824,139 @@ theorem char_boundary_counterexample :
     have : leadLen 169 = none := by decide
     rw [this] at hk; cases hk
 
+/-! ### Round 4c – the declarative specification: leftmost, laziest split ("replicates logic from regex") -/
+
+/-- **The scan never needs to backtrack.**  `lazyFor` is the dissect pattern read as the regular
+expression `lit₀(.*?)lit₁(.*?)lit₂…` and run by a BACKTRACKING matcher (`Spec/C12Lazy.lean`: starts
+of the leading literal and token lengths tried in increasing order; a choice is undone when the
+rest of the pattern fails after it).  For every compiled pattern, both modes and every history
+matched by one instance, each returned slice – re-read after the last call – is the backtracking
+matcher's answer: committing to the FIRST occurrence of every literal loses no match and changes
+no offset.  (The correspondence op `lazy` runs the real code against this matcher AND against Go's
+`regexp` on that expression.) -/
+theorem dissect_eq_backtracking (ic : Bool) (p : Pat) (hp : p.Shape) (d : Dissect)
+    (hc : compileEx p.render ic = .ok d) (lines : List Bytes) :
+    matchAll d lines = .ok (lines.map fun l => (lazyFor ic p l).map (·.map Int.ofNat)) := by
+  rw [dissect_eq_spec ic p hp d hc]
+  simp only [lazyFor_eq_specFor]
+
+/-- …for specification and matcher alone, and for EVERY pattern value (also those no text denotes:
+empty literals between tokens): the one-pass scan equals the backtracking matcher. -/
+theorem spec_eq_backtracking (p : Pat) (line : Bytes) :
+    specDissect p line = lazyDissect p line ∧ specDissectIC p line = lazyDissectIC p line :=
+  ⟨(lazyDissect_eq_spec p line).symm, (lazyDissect_eq_spec _ _).symm⟩
+
+/-- **A line matches iff it CAN be read as an instance of the pattern – and the answer is the
+leftmost, laziest reading.**  `IsMatch q l s ns`: the leading literal stands at `s` and the token
+texts have the lengths `ns`, each followed by its trailing literal (a token without one ends the
+line).  With `q`/`l` the pattern and line as the mode compares them (`patFor`, `foldFor`: as
+written, or ASCII-folded): the real answer is `some r` exactly when `r` is the index slice
+(`offsetsOf`) of the reading whose choice vector `(s, n₁, n₂, …)` is lexicographically least –
+earliest start, then shortest first token, then shortest second token, … -/
+theorem match_is_least_split (ic : Bool) (p : Pat) (hp : p.Shape) (d : Dissect)
+    (hc : compileEx p.render ic = .ok d) (line : Bytes) (r : List Int) :
+    matchAll d [line] = .ok [some r] ↔
+      ∃ s ns, IsMatch (patFor ic p) (foldFor ic line) s ns ∧
+        (∀ s' ns', IsMatch (patFor ic p) (foldFor ic line) s' ns' → lexLE (s :: ns) (s' :: ns')) ∧
+        r = (offsetsOf (patFor ic p) s ns).map Int.ofNat := by
+  rw [matchAll_one hp hc, specFor_patFor]
+  constructor
+  · intro h
+    cases hs : specDissect (patFor ic p) (foldFor ic line) with
+    | none => rw [hs] at h; cases h
+    | some r0 =>
+      rw [hs] at h
+      simp only [Option.map_some, Option.some.injEq] at h
+      obtain ⟨s, ns, hm, hmin, hr⟩ := (specDissect_least_split _ _ _).mp hs
+      exact ⟨s, ns, hm, hmin, by rw [h, hr]⟩
+  · rintro ⟨s, ns, hm, hmin, rfl⟩
+    rw [(specDissect_least_split _ _ _).mpr ⟨s, ns, hm, hmin, rfl⟩]
+    rfl
+
+/-- **No match means that NO reading exists** (completeness): the real code answers `nil` exactly
+when the line cannot be split according to the pattern in any way – not merely when the split
+that starts at the first occurrences fails. -/
+theorem no_match_iff_no_split (ic : Bool) (p : Pat) (hp : p.Shape) (d : Dissect)
+    (hc : compileEx p.render ic = .ok d) (line : Bytes) :
+    matchAll d [line] = .ok [none] ↔ ¬ ∃ s ns, IsMatch (patFor ic p) (foldFor ic line) s ns := by
+  rw [matchAll_one hp hc, specFor_patFor, ← specDissect_none_iff]
+  cases specDissect (patFor ic p) (foldFor ic line) <;> simp
+
+/-- **`{0}` is the pattern with the token texts filled in.**  A match `[s, e, …]` comes with one
+text per token (captured or skipped), cut out of the line, such that `line[s:e]` IS
+`lit₀ v₁ lit₁ v₂ lit₂ … vₙ litₙ` (`instantiate`) – byte for byte when case-sensitive, after the
+ASCII fold of both sides with ignore-case.  So `{0}` starts with the leading literal, ends with
+the last delimiter and contains every delimiter in order. -/
+theorem span_is_instantiated_pattern (ic : Bool) (p : Pat) (hp : p.Shape) (d : Dissect)
+    (hc : compileEx p.render ic = .ok d) (line : Bytes) (r : List Int)
+    (h : matchAll d [line] = .ok [some r]) :
+    ∃ (s e : Nat) (rest : List Int) (vs : List Bytes), r = (s : Int) :: (e : Int) :: rest ∧ s ≤ e ∧
+      e ≤ line.length ∧ vs.length = p.toks.length ∧
+      foldFor ic ((line.drop s).take (e - s)) = instantiate (patFor ic p) vs := by
+  rw [matchAll_one hp hc, specFor_patFor] at h
+  cases hs : specDissect (patFor ic p) (foldFor ic line) with
+  | none => rw [hs] at h; cases h
+  | some r0 =>
+    rw [hs] at h
+    simp only [Option.map_some, Option.some.injEq] at h
+    obtain ⟨s, e, caps, vs, hr, hse, he, hvs, hspan⟩ := specDissect_span hs
+    refine ⟨s, e, caps.map Int.ofNat, vs, by rw [h, hr]; rfl, hse, by simpa [foldFor_length] using he,
+      by rw [hvs, patFor_toks_length], ?_⟩
+    rw [foldFor_take, foldFor_drop, hspan]
+
+/-- **Nothing behind `{0}` matters when the pattern ends in a literal.**  If every token has a
+trailing literal (for a compiled pattern: the last one has) and a line matches with `{0}` ending at
+`e`, then EVERY line that agrees with it on the first `e` bytes – cut off there, or continued by any
+other bytes – gets the same answer: the scan never looks past the last delimiter it found. -/
+theorem match_ignores_text_after_span (ic : Bool) (p : Pat) (hp : p.Shape) (d : Dissect)
+    (hc : compileEx p.render ic = .ok d) (hlit : ∀ t ∈ p.toks, t.lit ≠ [])
+    (line : Bytes) (s e : Nat) (rest : List Int)
+    (h : matchAll d [line] = .ok [some ((s : Int) :: (e : Int) :: rest)]) (other : Bytes) :
+    matchAll d [line.take e ++ other] = .ok [some ((s : Int) :: (e : Int) :: rest)] := by
+  rw [matchAll_one hp hc, specFor_patFor] at h ⊢
+  cases hs : specDissect (patFor ic p) (foldFor ic line) with
+  | none => rw [hs] at h; cases h
+  | some r0 =>
+    rw [hs] at h
+    simp only [Option.map_some, Option.some.injEq] at h
+    match r0, h, hs with
+    | [], h, _ => simp at h
+    | [_], h, _ => simp at h
+    | s0 :: e0 :: caps, h, hs =>
+      simp only [List.map_cons, List.cons.injEq] at h
+      obtain ⟨h1, h2, h3⟩ := h
+      have h1 : s = s0 := Int.ofNat_inj.mp h1
+      have h2 : e = e0 := Int.ofNat_inj.mp h2
+      subst h1 h2
+      have := specDissect_take_append (foldFor ic other) (patFor_lit_ne ic p hlit) hs
+      rw [foldFor_append, foldFor_take, this, h3]
+      rfl
+
+/-- Just outside that class (kernel-checked): `a=%{v}` – the last token has no trailing literal –
+on `a=1` and on `a=1x`: `[0,3,2,3]` and `[0,4,2,4]`; and the boundary of `no_match_iff_no_split`:
+`ab%{v}ba` on `aba` has no reading (the literals would have to overlap), on `abba` it has one. -/
+theorem after_span_counterexample :
+    matchAll (compiled false ⟨[97, 61], [⟨[118], []⟩]⟩) [[97, 61, 49], [97, 61, 49, 120]] =
+      .ok [some [0, 3, 2, 3], some [0, 4, 2, 4]] ∧
+    matchAll (compiled false ⟨[97, 98], [⟨[118], [98, 97]⟩]⟩) [[97, 98, 97], [97, 98, 98, 97]] =
+      .ok [none, some [0, 4, 2, 2]] := by
+  simp only [matchAll_compiled, Except.ok.injEq]
+  decide
+
+/-- Kernel-checked readings: on `k=1;k=2;x` the pattern `k=%{v};` has the readings `(0,[1])`,
+`(0,[5])` (v = `1;k=2`) and `(4,[1])`; the least is the answer `[0,4,2,3]`.  With a backtracking
+matcher the second token of `%{a}-%{b}:` on `1-2-3:4` is tried at lengths 0..2 before the `:` follows;
+the answer `[0,6,0,1,2,5]` (a = `1`, b = `2-3`) is the first-occurrence answer. -/
+theorem lazy_witnesses :
+    IsMatch ⟨[107, 61], [⟨[118], [59]⟩]⟩ [107, 61, 49, 59, 107, 61, 50, 59, 120] 0 [1] ∧
+    IsMatch ⟨[107, 61], [⟨[118], [59]⟩]⟩ [107, 61, 49, 59, 107, 61, 50, 59, 120] 0 [5] ∧
+    IsMatch ⟨[107, 61], [⟨[118], [59]⟩]⟩ [107, 61, 49, 59, 107, 61, 50, 59, 120] 4 [1] ∧
+    lexLE [0, 1] [0, 5] ∧ lexLE [0, 1] [4, 1] ∧
+    offsetsOf ⟨[107, 61], [⟨[118], [59]⟩]⟩ 0 [1] = [0, 4, 2, 3] ∧
+    lazyDissect ⟨[107, 61], [⟨[118], [59]⟩]⟩ [107, 61, 49, 59, 107, 61, 50, 59, 120] = some [0, 4, 2, 3] ∧
+    lazyDissect ⟨[], [⟨[97], [45]⟩, ⟨[98], [58]⟩]⟩ [49, 45, 50, 45, 51, 58, 52] = some [0, 6, 0, 1, 2, 5] := by
+  refine ⟨?_, ?_, ?_, ?_, ?_, ?_, ?_, ?_⟩ <;> decide
+
 /-! ### Non-vacuity: the hypotheses above are satisfiable on concrete, non-trivial values -/
 
 /-- `k=%{x} %{?s};%{y}` -/
@@ -909,5 +1043,15 @@ example : specDissect ⟨[195, 169, 61], [⟨[118], [228, 184, 150]⟩]⟩
     [120, 195, 137, 195, 169, 61, 97, 228, 184, 150, 98, 228, 184, 150] = some [3, 10, 6, 7] := by decide
 example : Boundary [120, 195, 137, 195, 169, 61, 97, 228, 184, 150, 98, 228, 184, 150] 3 :=
   ⟨by decide, utf8_of_chk (by decide), utf8_of_chk (by decide)⟩
+
+-- round 4c: `match_ignores_text_after_span` – a pattern whose tokens all have a trailing literal, a match, its cut
+example : (∀ t ∈ histPat.toks, t.lit ≠ []) ∧
+    matchAll (compiled false histPat) [[120, 105, 100, 61, 49, 59, 122, 122]] = .ok [some [1, 6, 4, 5]] ∧
+    matchAll (compiled false histPat) [[120, 105, 100, 61, 49, 59]] = .ok [some [1, 6, 4, 5]] := by
+  refine ⟨by decide, ?_, ?_⟩ <;> (simp only [matchAll_compiled, Except.ok.injEq]; decide)
+-- a reading that is NOT the least one exists (so the minimality clause of `match_is_least_split` says something)
+example : IsMatch (patFor true histPat) (foldFor true [73, 68, 61, 49, 59, 105, 100, 61, 50, 59]) 5 [1] ∧
+    IsMatch (patFor true histPat) (foldFor true [73, 68, 61, 49, 59, 105, 100, 61, 50, 59]) 0 [1] := by
+  constructor <;> decide
 
 end Rare.C12
